@@ -8,7 +8,7 @@ mk() { # name san ca cakey
   openssl pkcs8 -topk8 -nocrypt -in $1.key.sec1.pem -out $1.key.pem
   openssl req -new -key $1.key.pem -subj "/CN=$1" -out $1.csr
   printf "subjectAltName=$2\nbasicConstraints=CA:FALSE\nkeyUsage=digitalSignature\nextendedKeyUsage=serverAuth\n" > $1.ext
-  openssl x509 -req -in $1.csr -CA $3 -CAkey $4 -CAcreateserial -days 36500 -sha256 -extfile $1.ext -out $1.cert.pem
+  openssl x509 -req -in $1.csr -CA $3 -CAkey $4 -CAserial ./ca.srl -CAcreateserial -days 36500 -sha256 -extfile $1.ext -out $1.cert.pem
   rm -f $1.csr $1.ext $1.key.sec1.pem
 }
 mk iphost "DNS:localhost,IP:127.0.0.1,IP:::1" $CA $CAKEY
